@@ -23,7 +23,7 @@ from fractions import Fraction
 
 from ..alg import AlgError, Context, Rat
 from ..extract import Extractor, Opaque, PathRaises, ReturnValue, _dotted
-from ..model import Program, walk_own, is_self_attr, dotted
+from ..model import Program, walk_own, is_self_attr, dotted, inline_temporaries
 from ..report import AnalysisError
 from .. import tables
 from ..tables import Leaf
@@ -345,14 +345,8 @@ def circular_topologies(prog):
                     if isinstance(s, ast.Assign) and isinstance(s.targets[0], ast.Attribute) and s.targets[0].attr == "separatrix_radial_index":
                         v = s.value
                         sep = -v.operand.value if isinstance(v, ast.UnaryOp) else v.value
-        conns = []
-        for n in walk_own(init.node):
-            if isinstance(n, ast.If) and T(mod, n.test) == "self.user_options.limiter":
-                arm = n.body if limiter else n.orelse
-                for s in arm:
-                    for c in ast.walk(s):
-                        if isinstance(c, ast.Call) and _dotted(c.func) == "self.makeConnection" and all(isinstance(a, ast.Constant) for a in c.args):
-                            conns.append(tuple(a.value for a in c.args))
+        want_cond = "self.user_options.limiter" if limiter else "notself.user_options.limiter"
+        conns = [args for conds, args in _connection_calls(init.node) if want_cond in ["".join(c.split()) for c in conds]]
         if kind is None or sep is None:
             raise AnalysisError("circular kind / separatrix_radial_index not found for limiter=%s" % limiter)
         regions = {"circular": {"segments": ["circular_seg"], "kind": kind}}
@@ -360,6 +354,19 @@ def circular_topologies(prog):
         t.ctx = Context()
         t.sep_index = sep
         out.append(t)
+    return out
+
+
+def _connection_calls(fnode):
+    """(conditions, constant arguments) of every self.makeConnection(...) the function makes,
+    whether written out call by call or as a loop over a literal table"""
+    from ..stores import effects
+    out = []
+    for e in effects(fnode, consts=True):
+        if e.kind == "call" and _dotted(e.value.func) == "self.makeConnection":
+            if not all(isinstance(a, ast.Constant) for a in e.value.args) or e.value.keywords:
+                raise AnalysisError("makeConnection call with arguments that are not literal (unmodelled): %s" % ast.unparse(e.value)[:80])
+            out.append((e.cond_text(), tuple(a.value for a in e.value.args)))
     return out
 
 
@@ -539,11 +546,9 @@ def torpex_topology(prog):
                 kinds = vals
     if not legnames or not kinds or len(legnames) != len(kinds):
         raise AnalysisError("TORPEX leg tables not found")
-    conns = []
+    conns = [args for conds, args in _connection_calls(f.node)]
     setups = {}
     for c in walk_own(f.node):
-        if isinstance(c, ast.Call) and _dotted(c.func) == "self.makeConnection" and all(isinstance(a, ast.Constant) for a in c.args):
-            conns.append(tuple(a.value for a in c.args))
         if isinstance(c, ast.Call) and isinstance(c.func, ast.Name) and c.func.id == "setupRegion" and isinstance(c.args[0], ast.Constant):
             setups[c.args[0].value] = (T(mod, c.args[1]), T(mod, c.args[2]), c.args[3].value)
     ctx = Context()
@@ -912,7 +917,7 @@ def r8(prog, rep):
             t = s.targets[0]
             if isinstance(t.value, ast.Attribute) and isinstance(t.value.value, ast.Name) and t.value.value.id == "f" and isinstance(s.value, ast.Attribute) or \
                     (isinstance(t.value, ast.Attribute) and isinstance(t.value.value, ast.Name) and t.value.value.id == "f" and isinstance(s.value, ast.Subscript)):
-                stores[t.value.attr] = (T(mod, t.slice), T(mod, s.value))
+                stores[t.value.attr] = (T(mod, inline_temporaries(fx, t.slice, keep=("region",))), T(mod, s.value))
     for loc in ("centre", "xlow"):
         got = stores.get(loc)
         ok = got is not None and got[0] == K("self.region_indices[region.myID][0],:")
